@@ -4,7 +4,7 @@
 Require Extraction.
 Require ExtrOcamlBasic.
 From Coq Require Import NArith ZArith List.
-From V9 Require Import Lib.GoSem Lib.Bytes Gen.Consts Log.Ring Codec.Msg Codec.Pack Codec.Unpack.
+From V9 Require Import Lib.GoSem Lib.Bytes Gen.Consts Log.Ring Codec.Msg Codec.Pack Codec.Unpack Srv.Seq Srv.SeqSpec.
 
 Extraction Language OCaml.
 Extraction "model.ml"
@@ -14,4 +14,7 @@ Extraction "model.ml"
   Msg.spec_encode Msg.spec_stat Msg.wf_msg Msg.wf_dir Msg.norm_msg Msg.norm_dir Msg.typ
   Pack.pack Pack.pack_dir Pack.set_tag Pack.rread_two_step
   Unpack.unpack Unpack.unpack_dir Unpack.unpack_alloc
+  Seq.seq_step Seq.conn_init Seq.start_cfg Seq.tfid Seq.takes_fid Seq.is_tattach Seq.ver_u Seq.ver_p
+  SeqSpec.spec_step SeqSpec.vget SeqSpec.rules_ok SeqSpec.fid_ok SeqSpec.is_valid
+  Consts.c_Eunknownfid_text Consts.c_Einuse_text
   Consts.c_NOTAG Consts.c_NOFID Consts.c_NOUID Consts.c_IOHDRSZ.
